@@ -4,7 +4,9 @@ package main
 
 import (
 	"fmt"
+	"go/types"
 	"os"
+	"strings"
 
 	"golang.org/x/tools/go/ssa"
 )
@@ -119,11 +121,11 @@ func init() {
 
 	register(&PropCheck{
 		ID:      "C10",
-		PkgDirs: []string{"internal/peers"},
+		PkgDirs: []string{"internal/peers", "cmd/thruserv"},
 		Level:   "other",
 		Explanation: "The signaling hub (Add with last-write-wins replacement, the remove closure, CloseSession, SendTo, Broadcast, BroadcastExcept, List) is executed symbolically as a sequential object: session ids and peer ids of up to three connections and of the addressee are symbolic one-byte strings, so whether two connections share a session, carry the same peer id or replace one another is decided by the solver. Assertions over the per-connection channels: an addressed message is queued exactly on the connection registered for (session, peer); a broadcast on every other current connection of that session and on nothing else; SendTo is false iff the addressee is unknown; per-connection order is preserved without duplication; after remove/CloseSession a peer is neither routable nor listed and empty sessions leave no map entries.",
 		Rule:        "assertion sites: vAssert lines of H_C10_*",
-		Assumptions: []string{"writer goroutines stay pending (messages observed in the 256-slot channels; a full channel drops by design)", "the 1 s wait for the writer in remove() times out (the timer branch is taken)", "the From overwrite and the unknown-addressee error of cmd/thruserv's read loop, JSON and WebSocket framing are outside this check"},
+		Assumptions: []string{"writer goroutines stay pending (messages observed in the 256-slot channels; a full channel drops by design)", "the 1 s wait for the writer in remove() times out (the timer branch is taken)", "the From overwrite in cmd/thruserv's read loop is checked structurally only (every CFG path from the envelope decode to a routing call passes the store of the connection's peer id into From); the unknown-addressee error path, JSON and WebSocket framing are outside"},
 		Bounds:      func(tier string) string { return "<= 3 connections over symbolic 1-byte session and peer ids; 3 messages for the ordering obligation" },
 		Jobs: func(tier string, prog *ssa.Program) []*Job {
 			var js []*Job
@@ -133,6 +135,55 @@ func init() {
 				js = append(js, j)
 			}
 			return js
+		},
+		Extra: func(tier string, ld *Loaded, ev map[string]interface{}) []Finding {
+			// the server's read loop: between decoding an envelope and routing it, From is overwritten with the connection's peer id
+			isUnmarshalEnv := func(ins ssa.Instruction) bool {
+				c, ok := ins.(*ssa.Call)
+				if !ok || calleeName(&c.Call) != "encoding/json.Unmarshal" || len(c.Call.Args) != 2 {
+					return false
+				}
+				mi, ok := c.Call.Args[1].(*ssa.MakeInterface)
+				return ok && strings.HasSuffix(mi.X.Type().String(), "protocol.Envelope")
+			}
+			isFromStore := func(ins ssa.Instruction) bool {
+				st, ok := ins.(*ssa.Store)
+				if !ok {
+					return false
+				}
+				fa, ok := st.Addr.(*ssa.FieldAddr)
+				if !ok {
+					return false
+				}
+				stt, ok := fa.X.Type().Underlying().(*types.Pointer).Elem().Underlying().(*types.Struct)
+				if !ok || stt.Field(fa.Field).Name() != "From" {
+					return false
+				}
+				// the stored value must be the peer id taken from the connection's query, not something read from the message
+				return strings.Contains(strings.ToLower(st.Val.Name()+" "+valueComment(st.Val)+" "+st.Val.String()), "peerid") || debugName(st.Val) == "peerID"
+			}
+			isRoute := func(ins ssa.Instruction) bool {
+				c, ok := ins.(*ssa.Call)
+				if !ok {
+					return false
+				}
+				n := calleeName(&c.Call)
+				return strings.HasSuffix(n, "peers.Hub).SendTo") || strings.HasSuffix(n, "peers.Hub).BroadcastExcept") || strings.HasSuffix(n, "peers.Hub).Broadcast")
+			}
+			ok, inc, wit := checkMustPass(ld.Prog, repoModule+"/cmd/thruserv.handleWebSocket", isUnmarshalEnv, isFromStore, isRoute, ev, "cfg:handleWebSocket from-overwrite")
+			ev["extra_obligations"] = 1
+			if ok {
+				ev["extra_discharged"] = 1
+				return nil
+			}
+			if inc != "" {
+				fmt.Printf("INCONCLUSIVE property=C10 obligation=C10.from %s\n", inc)
+				return nil
+			}
+			return []Finding{{Obligation: "C10.from", Kind: "cfg", Msg: "an envelope can be routed without its From field being overwritten by the connection's peer id", Replay: func(dir string) (bool, string) {
+				os.WriteFile(dir+"/witness.txt", []byte(wit+"\n"), 0o644)
+				return true, wit
+			}}}
 		},
 	})
 
